@@ -7,6 +7,8 @@
              the statements under the `/* k: <op> */` comment of emulate_<op>
   D3 R-WIDEN 64-bit parameters: the generated C (templates instantiated into a scratch unit) and the emulator both
              combine the two executor slots as zero-extended low | high << 32
+  D4 R-TMPL  the text c_get_name_int writes for a constant operand evaluates, in int arithmetic, to that constant
+             (instantiated for probe values and judged by the C front end's constant folding)
 Value equivalence of compiled C and emulation is otherwise NOT decided.
 """
 import re
@@ -145,4 +147,8 @@ def run(ctx):
     from ctemplates import check_param_halves
     nt, nr = check_param_halves(ctx, db, rep, "D3-PARAM-HALVES")
     rep.extra["param_half_templates"] = nt
+
+    # ---- D4: constant operands are spelled as the values they are ---------------------------------
+    from ctemplates import check_constant_spelling
+    rep.extra["constant_spelling_cases"] = check_constant_spelling(ctx, db, rep, "D4-CONST-SPELLING")
 
